@@ -69,6 +69,7 @@ def confine(lead: bool, n: int, c1: int, c2: int, c3: int, form: int) -> bool:
     """
     pre: 1 <= n <= 3 and 0 <= c1 < 6 and 0 <= c2 < 6 and 0 <= c3 < core.PARAMS.get("n3", 6) and 0 <= form <= 2
     pre: (n > 1 or c2 == 0) and (n > 2 or c3 == 0)
+    pre: core.PARAMS.get("form") is None or form == core.PARAMS["form"]
     post: _
     """
     third = [0, 3, 4, 1, 2, 5]  # '..', 'a', 'decoy' first: a reduced third-component alphabet keeps the hostile ones
@@ -148,10 +149,11 @@ def _confine(lead, n, c1, c2, c3, form):
 
 def jobs(tier):
     q = tier == "quick"
-    T = 400 if q else 1500
+    T = 600 if q else 1500
     js = []
     for kind in KINDS:
-        js.append({"name": f"confine[{kind}]", "fn": "confine", "params": {"kind": kind, "n3": 2 if q else 6}, "timeout": T if q else 3000, "per_path": 120, "unblock": UNBLOCK})
+        for form in (0, 1, 2):
+            js.append({"name": f"confine[{kind},{['atom', 'quoted', 'literal'][form]}]", "fn": "confine", "params": {"kind": kind, "n3": 2 if q else 6, "form": form}, "timeout": T if q else 3000, "per_path": 120, "unblock": UNBLOCK})
         if not q:
             js.append({"name": f"confine[{kind},prep]", "fn": "confine", "params": {"kind": kind, "prep": True}, "timeout": T, "per_path": 120, "unblock": UNBLOCK})
     return js
